@@ -111,3 +111,25 @@ Definition check_vcase_nostate (c : vcase) : bool :=
   let '(_, outs) := run (mkCfg members remote true) (init store0 0%N) es in
   list_eqb (list_eqb qc_eqb) outs obs.
 Definition v_mismatches_nostate := mismatches_with check_vcase_nostate.
+
+(* ---- block availability over time ----
+   vote cases: members, initial local blocks, stimuli each with the blocks fetchable at that moment, observed
+   certificates per stimulus, final buckets, delayed votes *)
+Definition vcase_av := (list rid * list binfo * list (list binfo * event) *
+                        list (list qcert) * list (hash * list rid) * nat)%type.
+Definition check_vcase_av (c : vcase_av) : bool :=
+  let '(members, store0, es, obs, bk, nd) := c in
+  let '(st, outs) := run_av (mkCfg members [] true) (init store0 0%N) es in
+  list_eqb (list_eqb qc_eqb) outs obs && check_state st bk nd.
+Definition va_mismatches := mismatches_with check_vcase_av.
+
+(* Kauri cases: as [kcase], every stimulus with the hashes for which blockchain.Get succeeds at that moment *)
+Definition kcase_av := (list rid * list rid * bool * bool * list (list hash * kevent) *
+                        list kobs * (option (list ssig) * bool * list rid))%type.
+Definition check_kcase_av (c : kcase_av) : bool :=
+  let '(members, subtree, leaf, bls, es, obs, fin) := c in
+  let '(st, outs) := krun_av (mkKC members subtree leaf [] bls) kinit es in
+  let '(fagg, fsent, fsenders) := fin in
+  list_eqb kobs_eqb (map (fun o => (sends_of o, qcs_of o)) outs) obs &&
+  osig_eqb (ks_agg st) fagg && Bool.eqb (ks_sent st) fsent && list_eqb N.eqb (ks_senders st) fsenders.
+Definition ka_mismatches := mismatches_with check_kcase_av.
